@@ -88,12 +88,10 @@ GROUP = {
                 ("R0-named-return", "-> Result<Self, Self::Err>", "-> (r: Result<PrettyDecimal, Error>)", 1),
                 ("R0-self-type", "Ok(Self { format, value })", "Ok(PrettyDecimal { format, value })", 1),
                 ("R5",),
-                ("R11-closure-spec", "|offset, cp, pos| match (cp, pos) {",
-                 "|offset: usize, cp: Option<usize>, pos: usize| -> (r: bool)\n"
-                 "            requires offset <= 1,\n"
-                 "            ensures r == ((cp is None && pos > offset && pos <= 3 + offset) || cp == Some(pos)),\n"
-                 "        { match (cp, pos) {", 1),
-                ("R11-closure-spec", "            _ => false,\n        };", "            _ => false,\n        } };", 1),
+                ("R11c", {"name": "aligned_comma", "params": [("offset", "usize"), ("cp", "Option<usize>"), ("pos", "usize")], "ret": "r: bool",
+                          "requires": "offset <= 1",
+                          # first comma after a leading group of 1..3 digits (behind the sign); later ones exactly where the previous group of three ends
+                          "ensures": "r == ((cp is None && pos > offset && pos <= 3 + offset) || cp == Some(pos))"}),
             ],
             "contract": FROM_STR_CONTRACT,
             "loops": {0: FROM_STR_INV},
